@@ -332,6 +332,11 @@ theorem fresh_step (c : Cfg) {st : State} (hF : Fresh st) (op : Op) : Fresh (ste
       split
       · exact fresh_delete c (st := { st with term := st.term.filter (· ≠ id) }) hF id
       · exact hF
+    | poke id slot w =>
+      simp only [poke]
+      cases h : AMap.lookup st.prim id with
+      | none => exact hF
+      | some r => exact fresh_insert_live hF (r.set slot w) h (fun x => by simp [lookup_insert])
     | get id => exact hF
     | byKey slot v => exact hF
     | list => exact hF
@@ -389,6 +394,10 @@ def opOnePerKeyAt (st : State) (s : Bool) (v : Nat) : Op → Bool
   | .update id k0 k1 => putOneAt st s v (id, ⟨k0, k1⟩)
   | .setKey id slot w => !(slot == s && w == v) || !carriedByOther st (some id) s (some v)
   | .load l => putsOneAt s v { next := st.next } l
+  | .poke id slot w =>
+    (match AMap.lookup st.prim id with
+     | some r => putOneAt st s v (id, r.set slot w)
+     | none => true)
   | _ => true
 
 /-- the operation does not move a LIVE primary onto or off key `(s, v)` along a path that leaves the index alone:
@@ -406,6 +415,11 @@ def opNoRekeyAt (c : Cfg) (st : State) (s : Bool) (v : Nat) : Op → Bool
      | some r => !(slot == s && w != v && r.key s == some v)
      | none => true)
   | .load l => putsKeepAt s v { next := st.next } l
+  | .poke id slot w =>
+    -- a write through an aliasing pointer never maintains an index: it must neither add nor remove `(s, v)`
+    (match AMap.lookup st.prim id with
+     | some r => (r.key s == some v) == ((r.set slot w).key s == some v)
+     | none => true)
   | _ => true
 
 /-- the operation is refused / changes nothing -/
@@ -583,6 +597,38 @@ theorem kinv_tresume {c : Cfg} {s : Bool} {v : Nat} {st : State} (hK : KInv s v 
   · exact kinv_delete_op (kinv_term hK _) id
   · exact hK
 
+theorem kinv_poke {c : Cfg} {s : Bool} {v : Nat} {st : State} (hK : KInv s v st) (id : Nat) (slot : Bool)
+    (w : Option Nat)
+    (h1 : opOnePerKeyAt st s v (.poke id slot w) = true) (h2 : opNoRekeyAt c st s v (.poke id slot w) = true) :
+    KInv s v (poke st id slot w).1 := by
+  unfold poke
+  cases h : AMap.lookup st.prim id with
+  | none => exact hK
+  | some old =>
+    simp only
+    simp only [opOnePerKeyAt, h] at h1
+    simp only [opNoRekeyAt, h] at h2
+    have hiff : old.key s = some v ↔ (old.set slot w).key s = some v := by
+      have : (old.key s == some v) = ((old.set slot w).key s == some v) := by simpa using h2
+      constructor
+      · intro a; simpa [a] using this.symm
+      · intro a; simpa [a] using this
+    apply kinv_put hK id (old.set slot w)
+    · intro x; simp [lookup_insert]
+    · show AMap.lookup (st.idx s) v = _
+      by_cases hk : (old.set slot w).key s = some v
+      · simp only [hk, if_true]
+        exact hK.fwd id old h (hiff.mpr hk)
+      · simp [hk]
+    · intro r hr hk
+      rw [h] at hr
+      simp only [Option.some.injEq] at hr
+      subst hr
+      exact hiff.mp hk
+    · intro hk id' r' hp hkr
+      simp only [putOneAt, hk, beq_self_eq_true, Bool.not_true, Bool.false_or, Bool.not_eq_true'] at h1
+      simpa using not_carried h1 id' r' v rfl hp hkr
+
 theorem kinv_step {c : Cfg} {s : Bool} {v : Nat} {st : State} (hK : KInv s v st) (op : Op)
     (h1 : (noEffect c st op || opOnePerKeyAt st s v op) = true)
     (h2 : (noEffect c st op || opNoRekeyAt c st s v op) = true) : KInv s v (step c st op).1 := by
@@ -608,6 +654,7 @@ theorem kinv_step {c : Cfg} {s : Bool} {v : Nat} {st : State} (hK : KInv s v st)
         · exact kinv_delete_op hK id
       | tpark id => exact kinv_tpark hK id
       | tresume id => exact kinv_tresume hK id
+      | poke id slot w => exact kinv_poke hK id slot w h1 h2
       | get id => exact hK
       | byKey slot w => exact hK
       | list => exact hK
@@ -730,6 +777,7 @@ theorem step_submgr_kinv0 {st : State} (hI : ∀ v, KInv false v st) (hF : Fresh
       · exact kinv_delete_op (hI v) id
     | tpark id => exact kinv_tpark (hI v) id
     | tresume id => exact kinv_tresume (hI v) id
+    | poke id slot w => simp [submgr, submgrAccepts] at ha
     | get id => exact hI v
     | byKey slot w => exact hI v
     | list => exact hI v
@@ -820,6 +868,7 @@ theorem step_submgr_termLive {st : State} (hT : TermLive st) (op : Op) : TermLiv
           exact hT x hx.1
         · simp
       · exact hT
+    | poke id slot w => simp [submgr, submgrAccepts] at ha
     | get id => exact hT
     | byKey slot w => exact hT
     | list => exact hT
@@ -933,6 +982,7 @@ theorem step_memstore_fwd {st : State} (hI : FwdS true st) (op : Op)
     | setKey id slot v => simp [memstore, memAccepts] at ha
     | tpark id => simp [memstore, memAccepts] at ha
     | tresume id => simp [memstore, memAccepts] at ha
+    | poke id slot w => simp [memstore, memAccepts] at ha
     | delete id =>
       simp only
       split
@@ -981,5 +1031,6 @@ theorem run_memstore_fwd {st : State} (hI : FwdS true st) (ops : List Op) (hl : 
     | list => exact ih (step_memstore_fwd hI _ (fun l' e => by cases e)) hl
     | tpark a => exact ih (step_memstore_fwd hI _ (fun l' e => by cases e)) hl
     | tresume a => exact ih (step_memstore_fwd hI _ (fun l' e => by cases e)) hl
+    | poke a b c => exact ih (step_memstore_fwd hI _ (fun l' e => by cases e)) hl
 
 end Bng.Index
